@@ -132,6 +132,12 @@ struct TrB : public RunNB, public TrVBase
   int more = 0;
   int run_sc(const SC& sc, int arg) { long b = sc.body; return run_script(b, arg); }
 };
+// a functor that is itself a sigc::trackable, stored by value inside the slot
+struct SCT : public SC, public sigc::trackable
+{
+  explicit SCT(long b) : SC(b) {}
+};
+
 struct TrVar
 {
   TrA* a = nullptr;
@@ -202,7 +208,40 @@ struct ScriptAcc
   }
 };
 
+// accumulator for void signals: same scripts, dereferencing yields nothing
+struct ScriptAccV
+{
+  long id;
+  ScriptAccV() : id(g_cur_acc) {}
+  template <class It>
+  void operator()(It first, It last) const
+  {
+    static const std::vector<AccOp> none;
+    auto f = g_prog->accs.find(id);
+    const std::vector<AccOp>* ops = (f == g_prog->accs.end()) ? &none : &f->second;
+    std::map<long, It> cs;
+    auto getc = [&](long k) -> It { if (k == 0) return first; if (k == 1) return last; auto q = cs.find(k); return q == cs.end() ? first : q->second; };
+    auto setc = [&](long k, const It& c) { cs.erase(k); cs.emplace(k, c); };
+    for (const auto& o : *ops)
+    {
+      if (o.k == 0 || o.k == 1) continue;
+      if (o.m == "acopy") { setc(o.k, getc(o.j)); }
+      else if (o.m == "ainc") { It c = getc(o.k); if (c != last) { ++c; setc(o.k, c); } }
+      else if (o.m == "adec") { It c = getc(o.k); if (c != first) { --c; setc(o.k, c); } }
+      else if (o.m == "aincp") { It c = getc(o.k); if (c != last) { c++; setc(o.k, c); } }
+      else if (o.m == "adecp") { It c = getc(o.k); if (c != first) { c--; setc(o.k, c); } }
+      else if (o.m == "aderef") { It c = getc(o.k); if (c != last) { *c; setc(o.k, c); } }
+      else if (o.m == "awalk" || o.m == "awalkuntil") { It c = getc(o.k); while (c != last) { *c; ++c; } setc(o.k, c); }
+      else if (o.m == "awalkp") { It c = getc(o.k); while (c != last) { *c; c++; } setc(o.k, c); }
+      else if (o.m == "awalkrev") { It c = last; while (c != first) { --c; *c; } setc(o.k, c); }
+      else if (o.m == "awalkrevp") { It c = last; while (c != first) { c--; *c; } setc(o.k, c); }
+    }
+  }
+};
+
 using SigV = sigc::signal<void(int)>;
+using SigVA = sigc::signal<void(int)>::accumulated<ScriptAccV>;
+using TSigVA = sigc::trackable_signal<void(int)>::accumulated<ScriptAccV>;
 using SigI = sigc::signal<int(int)>;
 using SigA = sigc::signal<int(int)>::accumulated<ScriptAcc>;
 using TSigV = sigc::trackable_signal<void(int)>;
@@ -252,7 +291,15 @@ struct GImpl : GBase
   }
   int emit(int arg) override
   {
-    if constexpr (IsVoid) { sig.emit(arg); return 0; }
+    if constexpr (IsVoid && IsAcc)
+    {
+      long saved = g_cur_acc;
+      g_cur_acc = acc;
+      struct Restore { long s; ~Restore() { g_cur_acc = s; } } r{saved};
+      sig.emit(arg);
+      return 0;
+    }
+    else if constexpr (IsVoid) { sig.emit(arg); return 0; }
     else if constexpr (IsAcc)
     {
       long saved = g_cur_acc;
@@ -278,6 +325,8 @@ struct GImpl : GBase
 
 static GBase* new_sig(char rk, long acc, bool track)
 {
+  if (rk == 'v' && acc >= 0) return track ? (GBase*)new GImpl<TSigVA, true, true, true>(rk, acc, track)
+                                          : (GBase*)new GImpl<SigVA, true, true, false>(rk, acc, track);
   if (rk == 'v') return track ? (GBase*)new GImpl<TSigV, true, false, true>(rk, acc, track)
                               : (GBase*)new GImpl<SigV, true, false, false>(rk, acc, track);
   if (acc >= 0) return track ? (GBase*)new GImpl<TSigA, false, true, true>(rk, acc, track)
@@ -358,6 +407,13 @@ static SlotT* make_functor_slot(char shape, long body, const std::vector<long>& 
       out = mk<SlotT>(sigc::bind<0>(sigc::mem_fun(o, &C::run_sc), SC(body)));
     });
   }
+  else if (shape == 'u' && ts.size() == 2)
+  {
+    with_tr(*ts[0], [&](auto& o0) { with_tr(*ts[1], [&](auto& o1) {
+      using C = std::remove_reference_t<decltype(o0)>;
+      out = mk<SlotT>(sigc::track_object(sigc::bind<0>(sigc::mem_fun(o0, &C::run_sc), SC(body)), o1)); }); });
+  }
+  else if (shape == 'v' && ts.empty()) { out = mk<SlotT>(SCT(body)); }
   else if (shape == 'n' && ts.size() == 1)
   {
     with_tr(*ts[0], [&](auto& o) {
